@@ -12,6 +12,7 @@ import (
 
 	"github.com/pkg/errors"
 	"github.com/pkg/xattr"
+	"golang.org/x/sys/unix"
 )
 
 // NewLocalFS initializes a new instance of a local filesystem that
@@ -96,7 +97,12 @@ func (fs *LocalFS) SetSymlinkPermissions(n NodeSymlink) error {
 		}
 	}
 
-	return nil
+	// The link has an mtime of its own, os.Chtimes would follow it to the target
+	if n.MTime == time.Unix(0, 0) {
+		return nil
+	}
+	ts := unix.NsecToTimespec(n.MTime.UnixNano())
+	return unix.UtimesNanoAt(unix.AT_FDCWD, dst, []unix.Timespec{ts, ts}, unix.AT_SYMLINK_NOFOLLOW)
 }
 
 func (fs *LocalFS) CreateDevice(n NodeDevice) error {
